@@ -390,7 +390,7 @@ CLAIM = {
             "The span runs also compare the active-order list left for the next strategy cycle, and a MARKET order submitted by a fill hook "
             "must execute at the end of that minute in both modes. (4) A chunk with a gap inside (through _simulate_new_candles) fills one / two orders exactly as the normal per-minute "
             "protocol does, and a one-candle chunk fills two / three orders and a reaction order in path order. "
-            "Not decided: whole-session output equality for arbitrary strategies; liquidation inside a chunk (C09 defines it per chunk; DESIGN section 4 describes the input on which C09 and C12 pull in opposite directions).",
+            "Not decided: whole-session output equality for arbitrary strategies; liquidation inside a chunk (C09 defines it per chunk; DESIGN section 4 describes the input on which C09 and C12 pull in opposite directions). The partial-candle publisher in the fast history (R7) and what a second-minute hook finds of the first minute in the store (R4d).",
     "note": "Trusted: interpreter semantics; a span = 2 minutes, 1 order; quick tier samples every 4th ordering (thorough: all 8308).",
 }
 
